@@ -43,11 +43,16 @@ def run(plan):
     def exchange_events(n0):
         return [e for e in dev.log[n0:]]
 
+    def online_after():
+        return bool(s.clients and s.clients[0].online)
+
     def check_retry_contract(label, evs, r, o, timing_only, t_start):
         """Invariants from the device-side log of one exchange."""
         lanmod = w.ns.lan
         tx = [e for e in evs if e["kind"] == "v2_req"]
         if not tx:
+            if o.kind == "ok" and (o.value is None or len(o.value) > 0) and (o.value is not None or online_after()):
+                res.fail(f"{label}: exchange reported success but the request was never transmitted", "")
             return
         cids = {e["cid"] for e in tx}
         if len(cids) != 1:
